@@ -100,7 +100,25 @@ pub struct Effect {
     pub clone_roots: Vec<NodeId>,
 }
 
-pub const UID_POOL: &[(u32, u32, i64)] = &[(0, 0, 0), (1, 10, 100), (2, 20, 200), (3, 30, 300), (7, 70, 700)];
+pub const UID_POOL: &[(u32, u32, i64)] = &[
+    (0, 0, 0),
+    (1, 10, 100),
+    (2, 20, 200),
+    (3, 30, 300),
+    (7, 70, 700),
+    (0, 0, 5),
+    (5, 0, 0),
+    (0, 5, 0),
+    (u32::MAX, u32::MAX, i64::MAX),
+    (1, 1, -1),
+    (2, 1, -1),
+    (1, 2, -1),
+    (2, 10, 100),
+    (1, 11, 100),
+    (1, 10, 101),
+    (0, 0, i64::MIN),
+    (9, 9, i64::MIN),
+];
 
 impl Model {
     pub fn new(n_doms: usize) -> Model {
@@ -440,15 +458,20 @@ impl DomSim {
     // -- generation ------------------------------------------------------------
 
     fn gen_builder(&self, r: &mut Rng, model: &Model, base: NodeId, uid_mode: bool, dom: usize) -> NodeSpec {
-        let n = match r.below(10) {
-            0..=4 => 1,
-            5..=7 => r.range(2, 3) as usize,
-            _ => r.range(4, 6) as usize,
+        let wide = r.chance(1, 120);
+        let n = if wide {
+            r.range(40, 140) as usize
+        } else {
+            match r.below(10) {
+                0..=4 => 1,
+                5..=7 => r.range(2, 3) as usize,
+                _ => r.range(4, 6) as usize,
+            }
         };
-        // random shape
+        // random shape (a wide builder is one parent with many children, some of them populated)
         let mut parent = vec![0usize; n];
         for (i, p) in parent.iter_mut().enumerate().skip(1) {
-            *p = r.usize_below(i);
+            *p = if wide && r.chance(9, 10) { 0 } else { r.usize_below(i) };
         }
         // pre-order numbering of that shape
         let mut kids: Vec<Vec<usize>> = vec![vec![]; n];
